@@ -1,8 +1,13 @@
 #!/bin/bash
-# Run once after a fresh restore, offline: builds the harness (and the fuzz targets used by
-# the thorough tiers) from files on disk only.
+# Run once after a fresh restore, offline: builds the harness from files on disk only.
+# The libFuzzer targets (thorough tiers of C05, C12, C20) are pre-built as well; the checks
+# rebuild them on demand anyway, so a failure here is not fatal.
 set -e
 export CARGO_NET_OFFLINE=true
 export PATH="$HOME/.cargo/bin:$PATH"
 cd /verif/harness
 cargo build --release --offline 2>&1 | tail -3
+for t in c05 c12 c20; do
+    cargo +nightly fuzz build "$t" >/dev/null 2>&1 || echo "note: fuzz target $t not pre-built (will be built by the thorough tier)"
+done
+echo "setup done"
